@@ -248,7 +248,7 @@ Section Top.
               - intro q. destruct (path_dec q d) as [->|Hn]; [rewrite xupd_same|rewrite xupd_other]; auto.
               - destruct E2 as (B1 & B2 & B3 & B4 & B5 & B6 & B7 & B8).
                 unfold dm. cbn [set_mtime d_mode d_uid d_gid d_mtime d_rdev d_target d_xattrs d_content].
-                repeat split; auto. intros _. symmetry. apply K2. auto. }
+                repeat split; auto. intros _. symmetry. apply (proj1 K2). auto. }
             destruct (IH (with_fs st0 (upd_inode i (set_mtime t) (c_fs st0))) (fun q => P q \/ q = d)) as (J1 & J2 & J3); auto.
             { intros q Hq. apply Hsub. right; auto. }
             { intros q i' Hq. cbn [with_fs c_fs upd_inode names inodes]. intro Hn.
@@ -272,7 +272,7 @@ Section Top.
       + unfold eff_known in Ee. rewrite Hk in Ee. cbn [andb] in Ee. apply negb_false_iff in Ee.
         apply andb_true_iff in Ee as [Em _].
         pose proof (Hg q) as Hgq. unfold Gp in Hgq. rewrite HX in Hgq. destruct Hgq as [G1 G2].
-        destruct (G2 (G1 Em)) as [_ K2]. rewrite (K2 t Eu). apply (J2 q i); auto.
+        destruct (G2 (G1 Em)) as [_ K2]. rewrite (proj1 K2 t Eu). apply (J2 q i); auto.
     - split; auto. split; [|apply same_rest_refl].
       intros q i e Hn HX Hk. destruct (i_some _ _ _ I _ _ Hn) as (e' & E1 & E2 & _). rewrite HX in E1. inversion E1; subst e'.
       apply E2. unfold eff_known, utset. rewrite Eu, Hk, andb_false_r. auto.
@@ -308,7 +308,7 @@ Section Top.
   Definition top_ok (res : xres + xerr) (out : R) : Prop :=
     match res with
     | inl r => exists st', out = (st', None) /\ Inv (c_fs st') (xr_view r) /\ strict (c_fs st') (xr_view r) /\
-                           rev (c_notifs st') = xr_notifs r /\ c_stale st' = false
+                           rev (c_notifs st') = xr_notifs r /\ c_stale st' = false /\ exists cr, G (xr_view r) cr
     | inr xe => exists st' e, out = (st', Some e) /\ err_cls e = xerr_cls xe /\ c_stale st' = false /\
         match xe with
         | XConflict _ p bef => exists X', Inv (c_fs st') X' /\ strict (c_fs st') X' /\ X' p = bef /\ bef <> None
@@ -378,7 +378,7 @@ destruct (ensure_arg dst) as [|c0 e0] eqn:Een.
       destruct (fix_created_ok (cr1 ++ cr2) st2 (xr_view r) I2 G2) as (J1 & J2 & (J3 & J4 & J5)).
       unfold top_ok. cbn [xr_view xr_notifs]. eexists. split; [reflexivity|]. split; auto. split; auto.
       split; [rewrite J4, N2, N1; unfold st0; cbn [c_notifs]; rewrite app_nil_r, rev_involutive; reflexivity|].
-      rewrite J5, S2, S1. auto.
+      split; [rewrite J5, S2, S1; auto|eauto].
     - destruct HS as (st2 & e & cr2 & E2 & C2 & S2 & K2). rewrite E2.
       unfold top_ok. eexists; eexists. split; [reflexivity|]. split; auto.
       destruct xe as [cls p bef| |].
